@@ -548,7 +548,7 @@ fn resolve_class_ref_as_multiclass(
 fn check_template_args(
     ctx: &mut IndexCtx,
     template_args: Vec<TemplateArgument>,
-    arg_values: Vec<Option<(Option<EcoString>, Type, TextRange)>>,
+    arg_values: Vec<Option<(Option<EcoString>, Option<Type>, TextRange)>>,
     range: TextRange,
 ) {
     if arg_values.len() > template_args.len() {
@@ -592,7 +592,7 @@ fn check_template_args(
             }
         };
 
-        if let Some((arg_name, arg_typ)) = arg_name_typ {
+        if let (Some((arg_name, arg_typ)), Some(arg_value_typ)) = (arg_name_typ, arg_value_typ) {
             if !arg_value_typ.can_be_casted_to(&ctx.symbol_map, arg_typ) {
                 ctx.error(
 				arg_value_range,
@@ -618,7 +618,7 @@ fn check_template_args(
 }
 
 impl Indexable for ast::ArgValueList {
-    type Output = Vec<Option<(Option<EcoString>, Type, TextRange)>>;
+    type Output = Vec<Option<(Option<EcoString>, Option<Type>, TextRange)>>;
     fn index(&self, ctx: &mut IndexCtx) -> Option<Self::Output> {
         let result = self
             .arg_values()
@@ -629,11 +629,12 @@ impl Indexable for ast::ArgValueList {
 }
 
 impl Indexable for ast::ArgValue {
-    type Output = (Option<EcoString>, Type, TextRange);
+    // the type is None when it is unknown: such a value still binds its template argument
+    type Output = (Option<EcoString>, Option<Type>, TextRange);
     fn index(&self, ctx: &mut IndexCtx) -> Option<Self::Output> {
         match self {
             ast::ArgValue::PositionalArgValue(positional) => {
-                let typ = positional.value()?.index(ctx)?;
+                let typ = positional.value()?.index(ctx);
                 Some((None, typ, positional.syntax().text_range()))
             }
             ast::ArgValue::NamedArgValue(named) => {
@@ -646,7 +647,7 @@ impl Indexable for ast::ArgValue {
                     );
                     return None;
                 };
-                let typ = named.value()?.index(ctx)?;
+                let typ = named.value()?.index(ctx);
                 Some((Some(name.value()), typ, named.syntax().text_range()))
             }
         }
